@@ -196,6 +196,99 @@ def task(arg):
     return sh.dict()
 
 
+# --------------------------------------------------------------------------
+# faults inside random struct-API histories: the operation under fault meets whatever state the history built up
+
+def history_fault_case(arg):
+    idx, seed, work, shim = arg
+    import c01
+    import layersim
+    sh = vp.Shard()
+    r = vp.rng(seed, "c12-hist", idx)
+    steps = [s for s in c01.random_history(r, r.randint(3, 9))]
+    targets = [i for i, s in enumerate(steps) if s["op"] not in ("restore", "fs_write")]
+    if not targets:
+        return sh.dict()
+    armed_at = r.choice(targets)
+    ename = r.choice(["EIO", "EACCES", "ENOSPC"])
+
+    def play(mode, k):
+        root = os.path.join(work, "h%d-%s" % (idx, mode))
+        w = os.path.join(root, "w")
+        layers, src = os.path.join(w, "layers"), os.path.join(w, "src")
+        for d in (layers, src, os.path.join(root, "app"), os.path.join(root, "bp")):
+            os.makedirs(d)
+        for p in ("p1", "p2", "p3"):
+            with open(os.path.join(src, p), "wb") as f:
+                f.write(b"#!/bin/sh\necho " + p.encode() + b"\n")
+            os.chmod(os.path.join(src, p), 0o755)
+        log = os.path.join(root, "trace.log")
+        env = {"LD_PRELOAD": shim, "VP_SHIM_PREFIX": w, "VP_SHIM_MODE": mode, "VP_SHIM_LOG": log, "VP_SHIM_CLASS": CLASSES, "VP_SHIM_K": str(k), "VP_SHIM_ERRNO": str(ERRNOS[ename]), "VP_SHIM_ARMED": "0"}
+        mon = vp.Mon("layers", env=env)
+        rep = None
+        alive = set()
+        try:
+            mon.call({"op": "init", "layers_dir": layers, "app_dir": os.path.join(root, "app"), "bp_dir": os.path.join(root, "bp")})
+            for i, step in enumerate(steps[:armed_at + 1]):
+                if step["op"] == "restore":
+                    layersim.restore(layers, c01.NAMES)
+                    mon.call({"op": "drop_refs"})
+                    alive.clear()
+                    continue
+                if step["op"] == "fs_write":
+                    if step["name"] in alive:
+                        for rel, h in step["files"]:
+                            p = os.path.join(layers, step["name"], rel)
+                            os.makedirs(os.path.dirname(p), exist_ok=True)
+                            with open(p, "wb") as f:
+                                f.write(bytes.fromhex(h))
+                    continue
+                if step["op"] not in ("cached", "uncached") and step["name"] not in alive:
+                    if i == armed_at:
+                        return None
+                    continue
+                if i == armed_at:
+                    mon.call({"op": "arm", "on": True})
+                rep = mon.call(c01.enc_step(step, src))
+                if i == armed_at:
+                    mon.call({"op": "arm", "on": False})
+                if step["op"] in ("cached", "uncached"):
+                    (alive.discard if "err" in rep else alive.add)(step["name"])
+        finally:
+            mon.close()
+        out = (rep, vp.read_trace(log), vp.snapshot(w))
+        vp.rmtree(root)
+        return out
+
+    base = play("count", 0)
+    if base is None or base[0] is None or base[0].get("no_ref"):
+        return sh.dict()
+    calls = [t for t in base[1] if t["class"] in CLASSES.split(",")]
+    if "err" in base[0] or not calls:
+        return sh.dict()          # the fault-free step itself is a scripted callback error: nothing to inject into
+    k = r.randint(1, len(calls))
+    got = play("inject", k)
+    sh.evaluations += 1
+    fired = [t for t in got[1] if t["tag"] == "INJECTED"]
+    step = steps[armed_at]
+    case = {"kind": "history", "idx": idx, "armed_step": armed_at, "k": k, "errno": ename, "steps": c01.jsonable(steps)}
+    if not fired:
+        sh.inconclusive.append("history %d: injection #%d never fired" % (idx, k))
+        return sh.dict()
+    what = "step %d (%s on %s) of a %d-step history with %s injected into its call #%d = %s on ...%s" % (armed_at, step["op"], step.get("name"), len(steps), ename, k, fired[0]["call"], fired[0]["phys"].decode(errors="replace")[-50:])
+    sh.count("injections_fired")
+    if "err" not in got[0]:
+        if got[2] != base[2]:
+            sh.violation("success-despite-fault:history:%s:%s" % (step["op"], fired[0]["class"]), "%s: the call reported success, but the directory differs from the fault-free run: %s"
+                         % (what, vp.snap_diff(base[2], got[2], 4)), case)
+            return sh.dict()
+        sh.count("tolerated_with_identical_result")
+    else:
+        sh.count("reported_as_error")
+    sh.nontrivial.add(("history", step["op"], step.get("mtype"), fired[0]["class"], role(fired[0]["phys"], work)))
+    return sh.dict()
+
+
 def run(tier, seed, work):
     res = vp.Result("C12", tier, seed, "fault_enumeration")
     shim = vp.build_shim()
@@ -221,6 +314,11 @@ def run(tier, seed, work):
     with mp.get_context("fork").Pool(vp.NCPU) as pool:
         for d in pool.imap_unordered(task, tasks, chunksize=4):
             res.merge(d)
+    nh = 400 if tier == "quick" else 6000
+    with mp.get_context("fork").Pool(vp.NCPU) as pool:
+        for d in pool.imap_unordered(history_fault_case, [(i, seed, work, shim) for i in range(nh)], chunksize=8):
+            res.merge(d)
+    res.extra["history_fault_cases"] = nh
     res.exhaustive = True
     res.extra["exhaustive_bound"] = "every position k in the sequence of watched libc calls of each of %d operations x errno in %r" % (len(ops), errnos)
     res.extra["operations"] = ops
@@ -234,6 +332,11 @@ def run(tier, seed, work):
 def replay(case, work):
     res = vp.Result("C12", "quick", 0, "fault_enumeration")
     shim = vp.build_shim()
+    if case.get("kind") == "history":
+        res.merge(history_fault_case((case["idx"], int(os.environ.get("VERIF_SEED", "0")), work, shim)))
+        res.nontrivial.update({"replay-a", "replay-b"})
+        res.rule = "replay of one history fault (regenerated from VERIF_SEED and its index)"
+        return res
     ok, detail, trace, base = execute(os.path.join(work, "count"), case["op"], shim, "count")
     d = task((case["op"], case["k"], case["errno"], os.path.join(work, "t"), shim, base, "replay"))
     res.merge(d)
